@@ -13,9 +13,11 @@ p=$src/patch.current.diff; [ -s "$p" ] || p=$src/patch.diff
 git -C $wt apply --3way "$p" >/dev/null 2>&1 || git -C $wt apply "$p" >/dev/null 2>&1 || { echo "$id: patch does not apply"; git -C /repo worktree remove --force $wt; exit 2; }
 git -C $wt diff HEAD > $src/patch.current.diff
 # (a) suite unchanged, (b) demo fails with / passes without
+if [ -n "${SEEDTEST_FAST:-}" ]; then suite=skipped; dw=-; dwo=-; else
 suite=$(cd $wt && PYTHONPATH=$wt /venv/bin/python -m pytest -q -p no:cacheprovider --timeout=900 pyqsp/test 2>&1 | tail -1 | sed 's/ in .*//')
 (cd $wt && PYTHONPATH=$wt timeout 900 /venv/bin/python $src/demo.py > $out/demo_with.txt 2>&1); dw=$?
 (cd /tmp && PYTHONPATH=/repo timeout 900 /venv/bin/python $src/demo.py > $out/demo_without.txt 2>&1); dwo=$?
+fi
 res=""
 cd /verif
 for c in "$@"; do
